@@ -9,9 +9,9 @@ rows = [json.load(open(f)) for f in sorted(glob.glob(os.path.join(HERE, "seeded"
 out = ["# Seeded changes", "",
        "Each directory holds one change that breaks a property while the tree still imports and the pinned 209-test suite still",
        "passes. They were produced by independent sub-agents that were given only the text of one property and a scratch git",
-       "worktree of /repo (prompts: `PROMPT.round2.txt`, `PROMPT.round3.txt`; round 1 asked for one change, round 2 for three of",
+       "worktree of /repo (prompts: `PROMPT.round2.txt` ... `PROMPT.round4.txt`; round 1 asked for one change, round 2 for three of",
        "different kinds, round 3 for one outside the anchored code, one subtle slip inside it, and one pair of cooperating edits or",
-       "a stale cache / aliasing copy). A change was kept only after `tools/eval_seed.py` confirmed it in a fresh scratch worktree: demo passes on the",
+       "a stale cache / aliasing copy, round 4 for one in a less central sibling implementation, one shape-preserving semantic slip and one ordering / lifetime mistake). A change was kept only after `tools/eval_seed.py` confirmed it in a fresh scratch worktree: demo passes on the",
        "unchanged tree, patch applies, test suite passes with it, demo fails with it. None of them is committed to /repo.", "",
        "* `patch.diff` - the change (applies to /repo with `git -C /repo apply`; undo with `git -C /repo checkout -- .`)",
        "* `demo.py` - the demonstration (`meta.json: demo_path` says where it has to live relative to the tree root)",
